@@ -14,6 +14,10 @@ type Lexer struct {
 	atStart bool
 	header  headerState
 	last    TokenType // type of the previous token
+
+	// memo of looksLikeAccount: input[aheadStart:aheadEnd] was scanned and its
+	// last colon is at aheadLastColon (-1: none)
+	aheadStart, aheadEnd, aheadLastColon int
 }
 
 // headerState tracks the position inside a transaction header line, where the
@@ -645,12 +649,20 @@ func (l *Lexer) scanSign() Token {
 }
 
 func (l *Lexer) looksLikeAccount() bool {
-	hasColon := false
+	// The look-ahead runs to the next double space or terminator, which on a
+	// long line of single-spaced words is far away and the same for every word:
+	// remember the scanned stretch and its last colon instead of rescanning it
+	// for each token (quadratic in the line length otherwise).
+	if l.pos >= l.aheadStart && l.pos < l.aheadEnd {
+		return l.aheadLastColon >= l.pos
+	}
 
-	for i := l.pos; i < len(l.input); {
+	lastColon := -1
+	i := l.pos
+	for i < len(l.input) {
 		r, size := utf8.DecodeRuneInString(l.input[i:])
 		if r == ':' {
-			hasColon = true
+			lastColon = i
 			i += size
 		} else if r == ' ' {
 			if i+1 < len(l.input) && l.input[i+1] == ' ' {
@@ -663,8 +675,9 @@ func (l *Lexer) looksLikeAccount() bool {
 			i += size
 		}
 	}
+	l.aheadStart, l.aheadEnd, l.aheadLastColon = l.pos, i, lastColon
 
-	return hasColon
+	return lastColon >= l.pos
 }
 
 func (l *Lexer) looksLikeCommodity(value string) bool {
